@@ -27,7 +27,8 @@ def main(tier):
         if code == 0 or not model_race:
             raise vf.Broken("Registry model: a race was expected to be reachable without discipline")
         g = vf.gen(ctx, "GrowthGen.tla", "GrowthGen.cfg", ctx.path("growth.ndjson"), what="growth vectors")
-        props.judge(ctx, "GROW", g, what="public API beyond the listed properties")
+        gd = vf.gen(ctx, "DebDocsGen.tla", "DebDocsGen.cfg", ctx.path("docs.ndjson"), what="typed documents (to be marshalled again)")
+        props.judge(ctx, "GROW", vf.cat(ctx.path("growth-all.ndjson"), g, gd), what="public API beyond the listed properties")
         # the Registry model against the code: the race detector on SetXZMaxDict || Load, with and without a lock
         out1, race1 = vf.harness_race(ctx, ["xzrace", "unsync"])
         out2, race2 = vf.harness_race(ctx, ["xzrace", "locked"])
@@ -46,7 +47,7 @@ def main(tier):
     printed = set()
     for v in ctx.violations:
         sig = (v["ev"], v.get("class", ""), v["why"])
-        kf = next((k for k in known if k["ev"] == v["ev"] and k["why"] == v["why"] and k.get("class", v.get("class")) == v.get("class")), None)
+        kf = next((k for k in known if k["ev"] == v["ev"] and (k["why"] == v["why"] or v["why"] in k.get("whys", [])) and k.get("class", v.get("class")) == v.get("class")), None)
         if kf:
             if kf["id"] not in printed:
                 printed.add(kf["id"])
